@@ -1127,6 +1127,22 @@ func (a *Agent) SocksClientGet(SocketID int) *SocksClient {
 	return client
 }
 
+/* SocksClientState returns the connection and the connected flag of a client.
+ * Both are changed by other goroutines (SocksClientClose, the connect callback). */
+func (a *Agent) SocksClientState(client *SocksClient) (net.Conn, bool) {
+	a.SocksCliMtx.Lock()
+	defer a.SocksCliMtx.Unlock()
+
+	return client.Conn, client.Connected
+}
+
+func (a *Agent) SocksClientSetConnected(client *SocksClient) {
+	a.SocksCliMtx.Lock()
+	defer a.SocksCliMtx.Unlock()
+
+	client.Connected = true
+}
+
 func (a *Agent) SocksClientRead(client *SocksClient) ([]byte, error) {
 	var (
 		data  = make([]byte, 0x10000)
@@ -1134,12 +1150,13 @@ func (a *Agent) SocksClientRead(client *SocksClient) ([]byte, error) {
 	)
 
 	if client != nil {
-		if client.Conn != nil {
-			if client.Connected {
+		Conn, Connected := a.SocksClientState(client)
+		if Conn != nil {
+			if Connected {
 
 				/* read from our socket to the data buffer or return error */
-				client.Conn.SetReadDeadline(time.Time{})
-				length, err := client.Conn.Read(data)
+				Conn.SetReadDeadline(time.Time{})
+				length, err := Conn.Read(data)
 				if err != nil {
 					return nil, err
 				}
